@@ -219,6 +219,22 @@ Theorem C04_nifti2_threshold_margin :
 Proof. exact stored_quat_snaps_nifti2. Qed.
 Print Assumptions C04_nifti2_threshold_margin.
 
+(* qfac: set_qform takes the sign of det of R = RZS / zooms.  In exact arithmetic that sign is the
+   sign of det RZS for every positive column scaling, so qfac never depends on the voxel sizes; the
+   extracted model gets the sign from the exact rational determinant of the input affine.  (In
+   floats det(RZS) under/overflows for extreme voxel sizes while det(R) does not.) *)
+Theorem C04_qfac_scale_invariant : forall M d, 0 < v1 d -> 0 < v2 d -> 0 < v3 d ->
+  (0 < det (div_cols M d) <-> 0 < det M) /\ (det (div_cols M d) < 0 <-> det M < 0)
+  /\ (det (div_cols M d) = 0 <-> det M = 0).
+Proof. exact det_sign_scale_invariant. Qed.
+Print Assumptions C04_qfac_scale_invariant.
+
+Theorem C04_set_qform_qfac_is_det_sign : forall polar eigmax A,
+  0 < v1 (col_norms (lin A)) -> 0 < v2 (col_norms (lin A)) -> 0 < v3 (col_norms (lin A)) ->
+  h_qfac (set_qform_R polar eigmax A) = (if Rlt_dec 0 (det (lin A)) then 1 else -1).
+Proof. exact set_qform_qfac_is_det_sign. Qed.
+Print Assumptions C04_set_qform_qfac_is_det_sign.
+
 (* the algebraic fact mat2quat relies on: a unit q is an eigenvector of K(quat2mat q) for
    the eigenvalue 1 *)
 Theorem C04_K_eigen : forall feps q, feps <= 1 -> qnorm2 q = 1 ->
